@@ -248,3 +248,57 @@ def shrink_bytes_tail(case, tid="main"):
                 c["tasks"] = [dict(x) for x in case["tasks"]]
                 c["tasks"][i]["data"] = d[:2 * keep]
                 yield c
+
+
+def gen_malformed(rng, i, p_wellformed=0.1, allow_random=True):
+    """one input of the C01-C06 families: well-formed, size / value / crash-point faults (single or
+    multiple), history faults on streams, random bytes.  -> (inp, data, recs, family)"""
+    from .. import faults as F
+    from .. import synth
+    r = rng.random()
+    if allow_random and r < 0.05:
+        n = rng.choice((0, 1, 2, 6, 10, 12, 20, 40))
+        data = bytes(rng.randrange(256) for _ in range(n))
+        L = layout()
+        root = rng.choice(["Command", "Response", model.STREAM, rng.choice(L.struct_names())])
+        cc = rng.choice(sorted(L.commands)) if root == "Response" else None
+        inp = dict(root=root, data=data, cc=cc, enc=None, label="random:%d" % n)
+        return inp, data, [dict(kind="random-bytes", cls="raw", depth=0, regions=[])], "random"
+    if rng.random() < 0.08:
+        inp = synth.gen_input(rng)
+    else:
+        inp = gen_input(rng, target_for(i, rng))
+    o = model.decode(inp["root"], inp["data"], cc=inp["cc"], enc=inp["enc"])
+    data = inp["data"]
+    if r < 0.05 + p_wellformed:
+        return inp, data, [], "wellformed"
+    r = rng.random()
+    if r < 0.30:
+        f = F.fault_size(data, o, rng)
+        fam = "size"
+        recs = []
+        if f:
+            data, rec = f
+            recs = [rec]
+        return inp, data, recs, fam
+    if r < 0.45:
+        recs = []
+        for _ in range(rng.randint(1, 2)):
+            f = F.fault_value(data, o, rng, value_only=rng.random() < 0.7)
+            if f:
+                data, rec = f
+                recs.append(rec)
+        return inp, data, recs, "value"
+    if r < 0.60:
+        f = F.fault_trunc(data, o, rng) if rng.random() < 0.6 else F.fault_append(data, o, rng)
+        if f:
+            return inp, f[0], [f[1]], "length"
+        return inp, data, [], "wellformed"
+    if r < 0.70 and inp["root"] == model.STREAM:
+        f = F.history_faults(data, inp["bounds"], rng)
+        if f:
+            return inp, f[0], [f[1]], "history"
+    kinds = sorted(F.MEDIUM)
+    k = rng.sample(kinds, rng.randint(2, len(kinds)))
+    data, recs = F.apply_random(data, o, rng, k, rng.randint(1, 3))
+    return inp, data, recs, "multi"
